@@ -433,6 +433,32 @@ type scanValuer interface {
 	driver.Valuer
 }
 
+// c03PreviousRow is "the row before" of the rows loop: a larger geometry of the same kind, XYZM, SRID 7.
+func c03PreviousRow(k ref.Kind) *ref.G {
+	var g *ref.G
+	l := geom.XYZM
+	switch k {
+	case ref.Point:
+		g = ref.NewPoint(l, true, ref.CounterFrom(900))
+	case ref.LineString:
+		g = ref.NewLine(ref.LineString, l, 7, ref.CounterFrom(900))
+	case ref.Polygon:
+		g = ref.NewParts(ref.Polygon, l, []int{5, 4, 4}, ref.CounterFrom(900))
+	case ref.MultiPoint:
+		g = ref.NewMultiPoint(l, []int{1, 1, 1, 1, 1}, ref.CounterFrom(900))
+	case ref.MultiLineString:
+		g = ref.NewParts(ref.MultiLineString, l, []int{3, 2, 4}, ref.CounterFrom(900))
+	case ref.MultiPolygon:
+		g = ref.NewMultiPolygon(l, [][]int{{4, 4}, {5}}, ref.CounterFrom(900))
+	case ref.Collection:
+		g = ref.NewCollection(geom.NoLayout, ref.NewPoint(l, true, ref.CounterFrom(900)), ref.NewLine(ref.LineString, l, 3, ref.CounterFrom(910)))
+	default:
+		return nil
+	}
+	g.SRID = 7
+	return g
+}
+
 func c03SQL(c *engine.Ctx, cs c03Case, fail func(what, desc string)) {
 	g := cs.G
 	if !supportedLayout(g) || (!cs.Ext && ref.HasEmptyPoint(g)) {
@@ -516,6 +542,25 @@ func c03SQL(c *engine.Ctx, cs c03Case, fail func(what, desc string)) {
 			}); p == nil && !bytes.Equal(vb, wantV) {
 				fail("value-retained-changed", fmt.Sprintf("the []byte returned by Value() changed after a later Value() call on another geometry: now %x, was %x", vb, wantV))
 				return
+			}
+			// the rows loop: ONE wrapper scanned again and again - first another, larger geometry of
+			// the same kind in another layout ("the previous row"), then this one: nothing of the
+			// previous row is left in the result
+			if prev := c03PreviousRow(g.Kind); prev != nil {
+				s2 := w.mk()
+				var e1, e2 error
+				if p, _ := engine.Guard(func() {
+					e1 = s2.Scan(ref.EncodeWKB(prev, !cs.XDR, cs.Ext))
+					e2 = s2.Scan(append([]byte{}, enc...))
+				}); p != nil || e1 != nil || e2 != nil {
+					fail("rescan-error", fmt.Sprintf("Scan into a wrapper that was scanned into before: panic %v, errors %v / %v", p, e1, e2))
+					return
+				}
+				if d := observeEq(w.get(s2), exp, ref.EqualOpt{}); d != "" {
+					fail("rescan-unequal", "Scan into a wrapper that holds the previous row: "+d)
+					return
+				}
+				c.Count("sql_rescans", 1)
 			}
 			c.Count("sql_roundtrips", 1)
 		} else {
